@@ -75,3 +75,12 @@ Proof.
     cbn [repeat_until concat map]. rewrite <- app_assoc, Hd.
     destruct (stop x); [discriminate Hx|]. rewrite (IH f Hd Hcut Hr). reflexivity.
 Qed.
+
+(* the encoded initial length is 4 bytes (32-bit format) or 12 bytes (64-bit format) long *)
+Lemma initial_length_encode_size : forall (le : bool) (len : Z) (is64 : bool),
+  initial_length_wf len is64 = true ->
+  Z.of_nat (List.length (initial_length_encode le len is64)) = spec_initlen_field_size (if is64 then 64 else 32).
+Proof.
+  intros le len is64 _. unfold initial_length_encode, spec_initlen_field_size.
+  destruct is64; cbn [Z.eqb]; rewrite ?app_length, ?int_encode_length; reflexivity.
+Qed.
